@@ -34,11 +34,12 @@ def gen(rng, tier, k):
         return dict(cls=cls, sm_spec=spec, rate=r, rate2=r2)
     if cls == "generic_mapset":
         g = rng.choice(["osu", "osu", "qua", "bms"])
-        return dict(cls=cls, specs=[charts.gen_spec(rng, g) for _ in range(rng.choice([1, 2, 3]))], rate=r, rate2=r2)
+        return dict(cls=cls, specs=[charts.gen_spec(rng, g) for _ in range(rng.choice([1, 2, 3]))], rate=r, rate2=r2,
+                    alias=rng.choice([None, None, "same_chart_twice", "shared_tempo_list"]))
     game = {"osu_qua_write": rng.choice(["osu", "qua"]), "bms_writable": "bms"}.get(cls)
     spec = charts.gen_spec(rng, game)
     hist = charts.gen_history(rng, allowed=["filter_mask", "sorted", "shuffle", "stack_noop", "reverse", "append_split"]) if rng.random() < 0.4 else []
-    return dict(cls=cls, spec=spec, history=hist, rate=r, rate2=r2)
+    return dict(cls=cls, spec=spec, history=hist, rate=r, rate2=r2, alias=rng.choice([None, None, None, "same_chart_twice", "shared_tempo_list"]))
 
 
 def setup(ctx):
@@ -68,6 +69,15 @@ def run(ctx, case):
                 x = sm_mem.build(case["sm_spec"])
             else:
                 x = charts.apply_history(charts.build(case["spec"]), case["history"])
+            if case.get("alias") and hasattr(x, "maps") and x.maps:
+                # charts of a set that refer to the same data (one chart listed twice, or a tempo list assigned from one chart
+                # to the others): each chart of the result is still the source chart scaled once
+                if case["alias"] == "same_chart_twice":
+                    x.maps = list(x.maps) + [x.maps[0]]
+                else:
+                    for m_ in x.maps[1:]:
+                        m_.bpms = x.maps[0].bpms
+                ctx.state("c13.aliased_set", case["alias"])
         except Exception:
             ctx.counters["c13|build_failed"] += 1
             return
